@@ -1,3 +1,4 @@
+import Resgate.Gw.Close
 import Resgate.Gw.Cache
 import Resgate.Model.Encode
 import Resgate.Model.Http
@@ -242,10 +243,9 @@ end
 def disposeConn (cid : Nat) : M Unit := do
   let c ← getConn cid
   if c.disposing then return
-  setConn { c with disposing := true, subs := [] }
-  modify fun g => { g with live := g.live.filter (· != cid) }
-  emit s!"U conn.{cname cid}"
-  for (_, uid) in (← orderedList (sortKV c.subs) false) do disposeSub cid uid
+  modify fun g => closingStart g cid
+  let order ← orderedList (c.subs.mergeSort fun a b => !(b.1 < a.1)) false
+  modify fun g => closeSubs cid g (order.map (·.2))
 
 /-- The resource graph an HTTP GET renders: the connection's subscriptions with their load-time
     snapshots (`Subscription.model / collection / Error()`), references resolved by resource id. -/
